@@ -423,6 +423,11 @@ def directed_scenes():
                   "geom %d %d" % (b + 2, b), "set %d type %d" % (b + 2, SPHERE), "set %d size 0.1" % (b + 2)]
             h += 3
         return L
+    # (c) every geom in the world body (the `cnt == 0` early return of mj_broadphase), bodies without geoms
+    out.append(("static", "world plane + world box, two bodies without geoms",
+                ["option disableflags 0", "option enableflags 0", "geom 1 0", "set 1 type %d" % PLANE, "set 1 size 1 1 0.1",
+                 "geom 2 0", "set 2 type %d" % BOX, "set 2 size 0.1 0.1 0.1", "body 3 0", "set 3 mass 1", "set 3 inertia 0.1 0.1 0.1",
+                 "freejoint 4 3", "body 5 0", "set 5 pos 1 0 0"]))
     for (k, m, wp) in ((1, 1, True), (1, 2, True), (2, 4, False), (2, 3, False), (1, 3, True)):
         out.append(("buffer", "%s%d mocap plane bod%s at the origin + %d free spheres resting on them"
                     % ("world plane + " if wp else "", k, "y" if k == 1 else "ies", m), planes(k, m, wp)))
